@@ -1,6 +1,7 @@
 import Driver.Common
 import GilVerif.Model.C01
 import GilVerif.Model.C02
+import GilVerif.Model.C03
 open Driver GilVerif.Geom GilVerif.Model.C01 GilVerif.Gen.C01
 
 /-- granule of the allocator address for a kind (alignment of the channel type) -/
@@ -60,6 +61,7 @@ def xfSteps : Xform → Bool
     plane, and the type facts the channel-view factories look at -/
 structure DV where
   v : View
+  bit : Bool := false      -- bit-aligned pixels (addresses in bits)
   pix : Int
   planar : Bool
   plane : Int → Int
@@ -95,8 +97,27 @@ def extent (o : Org) (lastPlane : Int) (v : View) : Int × Int :=
     let hi := rest.foldl max a
     (lo, hi + o.mstep + (if o.planar then lastPlane else 0))
 
+/-- positions the 1-D iterator reaches after the multi-row moves of the harness, for every pixel index i:
+    `end() - (size - i)`, `(begin() + j) - (j - i)` with `j = min(size, i + w + 1)`, and `--(end() - (size - 1 - i))` (= `*(rbegin() + (size-1-i))`),
+    through `Model.C03.It.advance` / `It.dec` (generated `iterator_from_2d::advance` / `decrement`) -/
+def iterPositions (d : DV) : List Int :=
+  let k : GilVerif.Model.C03.Kind := ⟨d.bit, d.t.isStep, d.pix, false, d.planar, d.pix⟩
+  let v := d.v
+  let size := v.w * v.h
+  if v.w ≤ 0 ∨ v.h ≤ 0 then [] else
+  let b := GilVerif.Model.C03.View.begin v
+  let e := GilVerif.Model.C03.View.endIt k v
+  (range' 0 (size - 1)).flatMap fun i =>
+    let j := min size (i + v.w + 1)
+    [(e.advance k (-(size - i))).p.pos, ((b.advance k j).advance k (-(j - i))).p.pos, ((e.advance k (-(size - 1 - i))).dec k).p.pos]
+
 def extentD (d : DV) : Int × Int :=
-  extent ⟨1, d.pix, d.planar, d.nplanes, [], 0⟩ (d.plane (d.nplanes - 1)) d.v
+  let e := extent ⟨1, d.pix, d.planar, d.nplanes, [], 0⟩ (d.plane (d.nplanes - 1)) d.v
+  match iterPositions d with
+  | [] => e
+  | ps =>
+    let tail := d.pix + (if d.planar then d.plane (d.nplanes - 1) else 0)
+    (ps.foldl min e.1, ps.foldl (fun m p => max m (p + tail)) e.2)
 
 /-- state after the constructor sequence: the image (Model.C01: `_memory`, `_allocated_bytes`, `_align_in_bytes`, `_view`, planes)
     and the number of allocations made -/
@@ -159,8 +180,9 @@ def showSt (o : Org) (ch : Option (Int × Int)) (s : St) (ds : List DOp) : Strin
     | some d => showInts [0, s.nalloc, 0, 0, 0, v.w, v.h, 0, 0] ++ " | " ++ showInts [d.v.w, d.v.h, 0, 0] ++ " | ok"
   else
     let np := if o.planar then o.nch else 1
-    let e := extent o (s.img.plane (np - 1)) v
-    match applyDOps ds { v := v, pix := o.mstep, planar := o.planar, plane := s.img.plane, nplanes := np, t := srcOf o ch } with
+    let d0 : DV := { v := v, bit := o.b2m = 8, pix := o.mstep, planar := o.planar, plane := s.img.plane, nplanes := np, t := srcOf o ch }
+    let e := extentD d0
+    match applyDOps ds d0 with
     | none => "bad-op"
     | some d =>
       let de := extentD d
@@ -194,7 +216,8 @@ def model (line : String) : String :=
     match orgOf k, ints [W, H, PAD] with
     | some o, some [W, H, PAD] =>
       let row := W * o.mstep + PAD
-      let e := if row * H = 0 then (0, 0) else extent o 0 { base := 0, xs := o.mstep, ys := row, w := W, h := H }
+      let e := if row * H = 0 then (0, 0) else
+        extentD { v := { base := 0, xs := o.mstep, ys := row, w := W, h := H }, pix := o.mstep, planar := false, plane := fun _ => 0, nplanes := 1, t := srcOf o none }
       showInts [row, e.1, e.2] ++ " | ok"
     | _, _ => "bad-op"
   | _ => "bad-op"
